@@ -3,6 +3,10 @@ Utility file to provide constants, exceptions and functions
 commonly used by the odML tools parsers and converters.
 """
 
+import csv
+
+from io import StringIO
+
 SUPPORTED_PARSERS = ['XML', 'YAML', 'JSON', 'RDF']
 
 
@@ -40,16 +44,49 @@ def odml_tuple_export(odml_tuples):
     Every tuple is represented by brackets '()'. The individual elements of a tuple are
     separated by a semicolon ';'. The individual tuples are separated by a comma ','.
     An odml 3-tuple list of 2 tuples would be serialized to: "[(11;12;13),(21;22;23)]".
+    A tuple containing a comma, a double quote or a line break is quoted the way
+    the csv "excel" dialect quotes such a field.
 
     :param odml_tuples: List of odml style tuples.
     :return: string
     """
-    str_tuples = ""
-    for val in odml_tuples:
-        str_val = ";".join(val)
-        if str_tuples:
-            str_tuples = "%s,(%s)" % (str_tuples, str_val)
-        else:
-            str_tuples = "(%s)" % str_val
+    str_tuples = ["(%s)" % ";".join(val) for val in odml_tuples]
 
-    return "[%s]" % str_tuples
+    # A tuple with a comma, a double quote or a line break in one of its elements
+    # is quoted according to the csv "excel" dialect; without the quoting the
+    # string could not be split into the individual tuples again.
+    stream = StringIO()
+    csv.writer(stream, dialect="excel").writerow(str_tuples)
+    csv_string = stream.getvalue()
+    if csv_string.endswith("\r\n"):
+        csv_string = csv_string[:-2]
+
+    return "[%s]" % csv_string
+
+
+def odml_tuple_split(tuple_string):
+    """
+    Splits the string representation 'odml_tuple_export' creates into the strings
+    of the individual tuples; quoted tuples are unquoted.
+    The string "[(11;12;13),(21;22;23)]" is returned as ["(11;12;13)", "(21;22;23)"].
+    A string that is not enclosed in square brackets is returned as a single tuple.
+
+    :param tuple_string: string representation of a list of odml style tuples.
+    :return: list of strings
+    """
+    content = tuple_string.strip()
+    if not (content.startswith("[") and content.endswith("]")):
+        return [content]
+
+    content = content[1:-1]
+    if not content.strip():
+        return []
+
+    if len(content) >= csv.field_size_limit():
+        csv.field_size_limit(len(content) + 1)
+
+    rows = list(csv.reader(StringIO(content), dialect="excel"))
+    if len(rows) != 1:
+        return [tuple_string]
+
+    return [val.strip() for val in rows[0]]
